@@ -120,6 +120,84 @@ struct Probe : Legalizer {
   std::vector<int> order(float a, float b, float c, float d) const { return computeCellOrder(a, b, c, d); }
 };
 
+// ---- the object's past ---------------------------------------------------------------------------------------------
+// Family addressed: state remembered INSIDE the Circuit object across calls (a memoised computeRows() result, stale
+// bookkeeping) that SOME public setter forgets to drop.  Which setter forgets is not known in advance, so every setter
+// has to be, at times, the ONLY call between the past and the measured legalize: a second setter that happens to refresh
+// the remembered state would mask the first.
+struct Past {
+  Circuit prior{0};
+  // what the object did before the setters:
+  //   0  computeRows() only -- a const query: the public state stays that of `prior`, so the restoring setters are exactly
+  //      the attribute classes in which `prior` differs from the case (one class -> one setter, the sole restorer);
+  //   1  computeRows() + legalize() + computeRows();   2  legalize() only
+  //      (legalize moves the movable cells, so setCellX/Y are then usually among the restoring setters -- unless the case
+  //      was built from the past's own result, see mutateOneClass / "eco" in h_C01).
+  int did = 1;
+  bool viaSolution = false;   // positions and orientations come back through ONE setSolution() call (when any of them differs)
+  bool viaSetupRows = false;  // rows come back through setupRows(area, H, alt, init) when the case's rows are what that call produces
+  std::string cls = "mixed";  // attribute class in which the past differs (measured distribution only)
+};
+
+struct SetupArgs { Rectangle area; int H = 0; bool alt = false, init = true; };
+
+// Are these rows exactly what Circuit::setupRows(area, H, alt, init) leaves behind?  (then: the arguments)
+inline bool asSetupRows(const std::vector<Row> &rows, SetupArgs &a) {
+  if (rows.empty()) return false;
+  int H = rows[0].height();
+  if (H <= 0) return false;
+  CellOrientation o0 = rows[0].orientation;
+  if (o0 != CellOrientation::N && o0 != CellOrientation::FS) return false;
+  CellOrientation o1 = o0 == CellOrientation::N ? CellOrientation::FS : CellOrientation::N;
+  bool alt = rows.size() >= 2 && rows[1].orientation != o0;
+  for (size_t i = 0; i < rows.size(); ++i) {
+    const Row &r = rows[i];
+    if (r.minX != rows[0].minX || r.maxX != rows[0].maxX) return false;
+    if ((long long)r.minY != (long long)rows[0].minY + (long long)i * H || r.maxY - r.minY != H) return false;
+    if (r.orientation != ((alt && i % 2 == 1) ? o1 : o0)) return false;
+  }
+  a.area = Rectangle(rows[0].minX, rows[0].maxX, rows[0].minY, rows.back().maxY);
+  a.H = H; a.alt = alt; a.init = o0 == CellOrientation::N;
+  return true;
+}
+
+inline bool sameRows(const std::vector<Row> &a, const std::vector<Row> &b) {
+  if (a.size() != b.size()) return false;
+  for (size_t i = 0; i < a.size(); ++i)
+    if (a[i].minX != b[i].minX || a[i].maxX != b[i].maxX || a[i].minY != b[i].minY || a[i].maxY != b[i].maxY || a[i].orientation != b[i].orientation) return false;
+  return true;
+}
+
+// the past as text (appended to the case text in a failure's input; --replay reads it back with parseCaseWithPast)
+inline std::string pastText(const Past &p, const LParams &lp) {
+  std::ostringstream os;
+  os << "prior\n" << caseText(p.prior, lp) << "restore " << p.did << " " << (p.viaSolution ? 1 : 0) << " " << (p.viaSetupRows ? 1 : 0) << " " << p.cls << "\n";
+  return os.str();
+}
+
+// case text, optionally followed by "prior\n<case text of the past>[restore <did> <viaSolution> <viaSetupRows> <class>]"
+// (files written before the `restore` line existed mean: did = 1, per-attribute setters)
+inline bool parseCaseWithPast(const std::string &txt, Circuit &c, LParams &lp, Past &past, bool &hasPast) {
+  size_t cut = txt.find("\nprior\n");
+  hasPast = cut != std::string::npos;
+  if (!hasPast) return parseCase(txt, c, lp);
+  LParams lp2;
+  std::string tail = txt.substr(cut + 7);
+  if (!parseCase(txt.substr(0, cut + 1), c, lp) || !parseCase(tail, past.prior, lp2)) return false;
+  std::istringstream is(tail);
+  std::string ln;
+  while (std::getline(is, ln)) {
+    if (ln.rfind("restore ", 0) != 0) continue;
+    std::istringstream ls(ln.substr(8));
+    int a = 1, b = 0, d = 0;
+    std::string cls;
+    ls >> a >> b >> d >> cls;
+    past.did = a; past.viaSolution = b != 0; past.viaSetupRows = d != 0;
+    if (!cls.empty()) past.cls = cls;
+  }
+  return true;
+}
+
 struct RunResult {
   std::string status;       // "ok" or fault class of the child
   std::string order;        // "order ..." line (empty if not computed)
@@ -129,36 +207,47 @@ struct RunResult {
   bool unchanged = true;    // circuit text identical after a throw
   std::string after;        // circuit text after the call (normal return)
   std::string diag;
+  std::vector<std::string> setters;  // with a past: the setters that brought the object to the case's public state
 };
 
 // Runs computeCellOrder (if wantOrder) and Circuit::legalize on a copy in a forked child.
 //
-// With `prior` (a circuit with the same number of cells) the measured call runs on an object with a PAST: the child
-// starts from `prior`, calls computeRows() and legalize() on it (result ignored), then brings the very same object to
+// With `past` (a circuit with the same number of cells) the measured call runs on an object with a PAST: the child
+// starts from `past->prior`, calls computeRows() and/or legalize() on it (result ignored), then brings the very same object to
 // the public state of `circ` through the setters and only then runs the measured sequence.  The property quantifies
 // over circuits, not over how the object got there, so every answer must equal the fresh-object answer (and the
 // model's): anything remembered inside the object across the setters (a cached row set, stale bookkeeping) shows up.
-inline RunResult runLegalize(const Circuit &circ, const LParams &lp, bool wantOrder, const Circuit *prior = nullptr) {
+inline RunResult runLegalize(const Circuit &circ, const LParams &lp, bool wantOrder, const Past *past = nullptr) {
   RunResult r;
   std::string outp;
   r.status = vh::isolated(
       [&](std::ostream &os) {
-        Circuit c = prior ? *prior : circ;
-        if (prior) {
-          try { (void)c.computeRows(); } catch (const std::exception &) {}
-          try { c.legalize(toColo(lp)); } catch (const std::exception &) {}
-          try { (void)c.computeRows(); } catch (const std::exception &) {}
+        Circuit c = past ? past->prior : circ;
+        if (past) {
+          if (past->did != 2) { try { (void)c.computeRows(); } catch (const std::exception &) {} }
+          if (past->did != 0) { try { c.legalize(toColo(lp)); } catch (const std::exception &) {} }
+          if (past->did == 1) { try { (void)c.computeRows(); } catch (const std::exception &) {} }
           // only the setters that are needed (compared with the object's state after its past): a setter that happens to
           // refresh some internal state must not mask another one that forgets to
-          if (c.cellX_ != circ.cellX_) c.setCellX(circ.cellX_);
-          if (c.cellY_ != circ.cellY_) c.setCellY(circ.cellY_);
-          if (c.cellOrientation_ != circ.cellOrientation_) c.setCellOrientation(circ.cellOrientation_);
-          if (c.cellIsFixed_ != circ.cellIsFixed_) c.setCellIsFixed(circ.cellIsFixed_);
-          if (c.cellIsObstruction_ != circ.cellIsObstruction_) c.setCellIsObstruction(circ.cellIsObstruction_);
-          if (c.cellWidth_ != circ.cellWidth_) c.setCellWidth(circ.cellWidth_);
-          if (c.cellHeight_ != circ.cellHeight_) c.setCellHeight(circ.cellHeight_);
-          if (c.cellRowPolarity_ != circ.cellRowPolarity_) c.setCellRowPolarity(circ.cellRowPolarity_);
-          if (vc::circuitString(c) != vc::circuitString(circ)) c.setRows(circ.rows_);
+          os << "S";
+          bool dx = c.cellX_ != circ.cellX_, dy = c.cellY_ != circ.cellY_, dorr = c.cellOrientation_ != circ.cellOrientation_;
+          if (past->viaSolution && (dx || dy || dorr)) { c.setSolution(circ.solution()); os << " setSolution"; }
+          else {
+            if (dx) { c.setCellX(circ.cellX_); os << " setCellX"; }
+            if (dy) { c.setCellY(circ.cellY_); os << " setCellY"; }
+            if (dorr) { c.setCellOrientation(circ.cellOrientation_); os << " setCellOrientation"; }
+          }
+          if (c.cellIsFixed_ != circ.cellIsFixed_) { c.setCellIsFixed(circ.cellIsFixed_); os << " setCellIsFixed"; }
+          if (c.cellIsObstruction_ != circ.cellIsObstruction_) { c.setCellIsObstruction(circ.cellIsObstruction_); os << " setCellIsObstruction"; }
+          if (c.cellWidth_ != circ.cellWidth_) { c.setCellWidth(circ.cellWidth_); os << " setCellWidth"; }
+          if (c.cellHeight_ != circ.cellHeight_) { c.setCellHeight(circ.cellHeight_); os << " setCellHeight"; }
+          if (c.cellRowPolarity_ != circ.cellRowPolarity_) { c.setCellRowPolarity(circ.cellRowPolarity_); os << " setCellRowPolarity"; }
+          if (!sameRows(c.rows_, circ.rows_)) {
+            SetupArgs sa;
+            if (past->viaSetupRows && asSetupRows(circ.rows_, sa)) { c.setupRows(sa.area, sa.H, sa.alt, sa.init); os << " setupRows"; }
+            if (!sameRows(c.rows_, circ.rows_)) { c.setRows(circ.rows_); os << " setRows"; }
+          }
+          os << "\n";
           if (vc::circuitString(c) != vc::circuitString(circ)) os << "H history-restore-mismatch\n";
         }
         ColoquinteParameters p = toColo(lp);
@@ -184,6 +273,12 @@ inline RunResult runLegalize(const Circuit &circ, const LParams &lp, bool wantOr
   std::istringstream is(outp);
   std::string ln;
   while (std::getline(is, ln)) {
+    if (ln[0] == 'S' && (ln.size() == 1 || ln[1] == ' ')) {
+      std::istringstream ss(ln.substr(1));
+      std::string w;
+      while (ss >> w) r.setters.push_back(w);
+      continue;
+    }
     if (ln.size() < 2) continue;
     std::string body = ln.substr(2);
     if (ln[0] == 'O') r.order = body;
@@ -201,6 +296,16 @@ inline RunResult runLegalize(const Circuit &circ, const LParams &lp, bool wantOr
     }
   }
   return r;
+}
+
+// measured distribution of the pasts: which setters restored the object, and which one did it alone
+inline void countPast(vh::Out &out, const Past &p, const RunResult &r) {
+  out.count("object_with_history");
+  out.count("history_class_" + p.cls);
+  out.count(p.did == 0 ? "history_did_computeRows_only" : (p.did == 1 ? "history_did_computeRows_legalize" : "history_did_legalize_only"));
+  for (auto &s : r.setters) out.count("history_restored_through_" + s);
+  if (r.setters.size() == 1) out.count("history_sole_restorer_" + r.setters[0]);
+  if (r.setters.empty()) out.count("history_no_setter_needed");
 }
 
 // A past for the object: `circ` with some cells elsewhere / turned / with other flags, a cell resized, a row dropped or shifted.
@@ -232,6 +337,248 @@ inline Circuit genPrior(vh::Rng &g, const Circuit &circ) {
     p.setRows(rows);
   }
   return p;
+}
+
+// ---- a circuit that differs from `circ` in exactly ONE attribute class ----------------------------------------------
+// Used both ways: as the PAST of the case `circ` (the object is then restored through the one setter of that class), and
+// as the CASE built from the result of a past legalize (h_C01 "eco": legalize, one edit through one setter, legalize again).
+// Every change stays inside the C01 domain, so the result is a valid case: fixed cells may be anywhere, of any size and
+// orientation; movable cells keep a positive placed width, a placed height that is a multiple of the row height, and an
+// unturned orientation when they carry a polarity.
+enum PastClass { PC_OrientFixed = 0, PC_X, PC_Y, PC_XY, PC_Fixed, PC_Obstruction, PC_Width, PC_Height, PC_Rows, PC_RowsSetup, PC_Polarity, PC_COUNT };
+inline const char *pastClassName(int c) {
+  static const char *nm[] = {"orientation", "x", "y", "xy", "isFixed", "isObstruction", "width", "height", "rows", "rows_setupRows", "polarity"};
+  return c >= 0 && c < PC_COUNT ? nm[c] : "mixed";
+}
+
+inline int pickPastClass(vh::Rng &g) {
+  // orientation of a fixed macro, positions of the fixed obstructions and the rows shape the free row space: drawn more often
+  static const std::vector<int> w = {PC_OrientFixed, PC_OrientFixed, PC_OrientFixed, PC_X, PC_X, PC_Y, PC_Y, PC_XY, PC_XY, PC_XY, PC_Fixed,
+                                     PC_Obstruction, PC_Obstruction, PC_Width, PC_Width, PC_Height, PC_Height, PC_Rows, PC_Rows,
+                                     PC_RowsSetup, PC_RowsSetup, PC_RowsSetup, PC_Polarity};
+  return g.pick(w);
+}
+
+inline Circuit mutateOneClass(vh::Rng &g, const Circuit &circ, int cls) {
+  Circuit p = circ;
+  int n = p.nbCells();
+  if (p.nbRows() == 0) return p;
+  int H = std::max(1, p.rows_[0].height());
+  int unit = std::max(1, H / 4);  // follows the scale of the circuit
+  Rectangle area = p.computePlacementArea();
+  std::vector<int> fixedCells, fixedObs, nonSquareObs, movable;
+  for (int i = 0; i < n; ++i) {
+    if (!p.cellIsFixed_[i]) { movable.push_back(i); continue; }
+    fixedCells.push_back(i);
+    if (p.cellIsObstruction_[i]) {
+      fixedObs.push_back(i);
+      if (p.cellWidth_[i] != p.cellHeight_[i]) nonSquareObs.push_back(i);
+    }
+  }
+  auto otherOrientation = [&](CellOrientation o, bool sameTurn) {
+    for (int t = 0; t < 64; ++t) {
+      CellOrientation c = (CellOrientation)g.range(0, 7);
+      if (c != o && (isTurn(c) == isTurn(o)) == sameTurn) return c;
+    }
+    return o;
+  };
+  auto newPos = [&](bool isX, int old) {
+    long long lo = isX ? area.minX : area.minY, ext = isX ? area.width() : area.height();
+    for (int t = 0; t < 16; ++t) {
+      long long v = lo + g.range(-(long long)5 * unit, std::max<long long>(1, ext));
+      if (!isX && g.chance(1, 2)) v = lo + (long long)H * g.range(-1, std::max<long long>(1, ext / H));  // on a row boundary
+      if (v != old) return (int)v;
+    }
+    return old + unit;
+  };
+  switch (cls) {
+    case PC_OrientFixed: {
+      std::vector<CellOrientation> orr = p.cellOrientation_;
+      if (!fixedCells.empty()) {
+        // one fixed cell surely changes, preferably an obstruction with a non-square footprint that is turned a quarter
+        // (its placed width and height are swapped: the free row space changes although no position, size or flag does)
+        int must = !nonSquareObs.empty() ? g.pick(nonSquareObs) : (!fixedObs.empty() ? g.pick(fixedObs) : g.pick(fixedCells));
+        for (int i : fixedCells) {
+          if (i == must) orr[i] = otherOrientation(orr[i], g.chance(1, 5));
+          else if (g.chance(1, 3)) orr[i] = otherOrientation(orr[i], g.chance(1, 2));
+        }
+      } else if (!movable.empty()) {
+        int i = g.pick(movable);
+        orr[i] = otherOrientation(orr[i], true);  // same footprint: N/S/FN/FS among themselves, E/W/FW/FE among themselves
+      }
+      p.setCellOrientation(orr);
+      break;
+    }
+    case PC_X: case PC_Y: case PC_XY: {
+      std::vector<int> x = p.cellX_, y = p.cellY_;
+      // the FIXED obstructions shape the free rows: they are what moves (half of the time nothing else does)
+      bool onlyFixed = !fixedCells.empty() && g.chance(1, 2);
+      int must = !fixedObs.empty() ? g.pick(fixedObs) : (!fixedCells.empty() ? g.pick(fixedCells) : (n > 0 ? (int)g.range(0, n - 1) : -1));
+      for (int i = 0; i < n; ++i) {
+        if (i != must && (onlyFixed && !p.cellIsFixed_[i])) continue;
+        if (i != must && !g.chance(1, 2)) continue;
+        if (cls != PC_Y) x[i] = newPos(true, x[i]);
+        if (cls != PC_X) y[i] = newPos(false, y[i]);
+      }
+      if (cls != PC_Y) p.setCellX(x);
+      if (cls != PC_X) p.setCellY(y);
+      break;
+    }
+    case PC_Fixed: {
+      std::vector<bool> fx = p.cellIsFixed_;
+      std::vector<int> cand = movable;  // a movable cell may always become fixed
+      for (int i : fixedCells) {        // a fixed cell may become movable when it is a legitimate movable cell
+        int pw = p.placedWidth(i), ph = p.placedHeight(i);
+        bool polOk = p.cellRowPolarity_[i] == CellRowPolarity::ANY || !isTurn(p.cellOrientation_[i]);
+        if (pw > 0 && ph > 0 && ph % H == 0 && ph / H <= 4 && polOk) cand.push_back(i);
+      }
+      if (!cand.empty()) { int i = g.pick(cand); fx[i] = !fx[i]; }
+      p.setCellIsFixed(fx);
+      break;
+    }
+    case PC_Obstruction: {
+      std::vector<bool> ob = p.cellIsObstruction_;
+      if (!fixedCells.empty()) { int i = g.pick(fixedCells); ob[i] = !ob[i]; }
+      else if (n > 0) { int i = g.range(0, n - 1); ob[i] = !ob[i]; }
+      p.setCellIsObstruction(ob);
+      break;
+    }
+    case PC_Width: case PC_Height: {
+      std::vector<int> v = cls == PC_Width ? p.cellWidth_ : p.cellHeight_;
+      if (!fixedCells.empty()) {
+        int i = !fixedObs.empty() ? g.pick(fixedObs) : g.pick(fixedCells);
+        long long d = g.range(1, 6) * (long long)unit * (g.chance(1, 3) ? -1 : 1);
+        long long nv = std::max<long long>(0, (long long)v[i] + d);
+        if (nv == v[i]) nv = v[i] + unit;
+        v[i] = (int)nv;
+      } else if (cls == PC_Width) {
+        std::vector<int> cand;
+        for (int i : movable) if (!isTurn(p.cellOrientation_[i])) cand.push_back(i);
+        if (!cand.empty()) { int i = g.pick(cand); v[i] = v[i] + unit * (int)g.range(1, 3); }
+      }
+      if (cls == PC_Width) p.setCellWidth(v); else p.setCellHeight(v);
+      break;
+    }
+    case PC_Rows: {
+      std::vector<Row> rows = p.rows_;
+      int k = g.range(0, 3);
+      int ri = g.range(0, (long long)rows.size() - 1);
+      if (k == 0 && rows.size() > 1) rows.erase(rows.begin() + ri);
+      else if (k == 1 && rows[ri].width() >= 2) rows[ri].minX += (int)g.range(1, std::max(1, rows[ri].width() / 2));   // narrower: still disjoint
+      else if (k == 2 && rows[ri].width() >= 2) rows[ri].maxX -= (int)g.range(1, std::max(1, rows[ri].width() / 2));
+      else {
+        static const std::vector<CellOrientation> rowOr = {CellOrientation::N, CellOrientation::S, CellOrientation::FN, CellOrientation::FS};
+        CellOrientation o = rows[ri].orientation;
+        for (int t = 0; t < 16 && o == rows[ri].orientation; ++t) o = g.pick(rowOr);
+        rows[ri].orientation = o;
+      }
+      p.setRows(rows);
+      break;
+    }
+    case PC_RowsSetup: {
+      // rows as laid out by Circuit::setupRows over an area near the present one
+      int nr = std::max<long long>(1, (long long)area.height() / H + g.range(-1, 1));
+      int a = area.minX + unit * (int)g.range(-3, 3), b = area.maxX + unit * (int)g.range(-3, 3);
+      if (b <= a) b = a + unit;
+      int y0 = area.minY + H * (int)g.range(-1, 1);
+      bool alt = g.chance(1, 2), init = g.chance(1, 2);
+      p.setupRows(Rectangle(a, b, y0, y0 + nr * H + (int)g.range(0, H - 1)), H, alt, init);
+      if (sameRows(p.rows_, circ.rows_)) p.setupRows(Rectangle(a, b + unit, y0, y0 + nr * H), H, alt, init);
+      break;
+    }
+    case PC_Polarity: {
+      std::vector<CellRowPolarity> pol = p.cellRowPolarity_;
+      std::vector<int> cand;
+      for (int i = 0; i < n; ++i)
+        if (pol[i] != CellRowPolarity::ANY || !isTurn(p.cellOrientation_[i])) cand.push_back(i);
+      if (!cand.empty()) {
+        int i = g.pick(cand);
+        static const std::vector<CellRowPolarity> ps = {CellRowPolarity::SAME, CellRowPolarity::OPPOSITE, CellRowPolarity::NW, CellRowPolarity::SE};
+        pol[i] = pol[i] != CellRowPolarity::ANY ? CellRowPolarity::ANY : g.pick(ps);
+      }
+      p.setCellRowPolarity(pol);
+      break;
+    }
+    default: break;
+  }
+  return p;
+}
+
+// The past of a case: two in five the broad perturbation of genPrior (several classes at once, the object legalized in
+// its past), else ONE class (mutateOneClass) after a past that is, two times in three, the const query computeRows() alone
+// -- then exactly one setter stands between the past and the measured call.
+inline Past genPast(vh::Rng &g, const Circuit &circ) {
+  Past p;
+  if (g.chance(2, 5)) {
+    p.prior = genPrior(g, circ);
+    p.cls = "mixed";
+    p.did = g.chance(3, 4) ? 1 : (g.chance(1, 2) ? 0 : 2);
+  } else {
+    int cls = pickPastClass(g);
+    SetupArgs sa;
+    if (cls == PC_RowsSetup && !asSetupRows(circ.rows_, sa)) cls = PC_Rows;  // setupRows can only restore what setupRows produces
+    p.prior = mutateOneClass(g, circ, cls);
+    p.cls = pastClassName(cls);
+    p.did = g.chance(2, 3) ? 0 : (g.chance(1, 2) ? 1 : 2);
+  }
+  p.viaSolution = g.chance(1, 3);
+  p.viaSetupRows = g.chance(3, 4);
+  return p;
+}
+
+// ---- the order in which the user lists the rows ----------------------------------------------------------------------
+// Family addressed: code that relies on the rows being in some order (bottom-up, left to right within a y) without
+// establishing it, or that establishes it only partially (sorts by y alone, skips the sort when a cheaper test says
+// "already sorted").  The generators list rows bottom-up and left to right; these listings are the others.
+//   0 reversed   1 shuffled   2 bottom-up but RIGHT TO LEFT within a y (sorted for a y-only test)
+//   3 top-down, left to right within a y   4 one adjacent pair exchanged
+inline const char *rowListingName(int m) {
+  static const char *nm[] = {"reversed", "shuffled", "y_up_x_right_to_left", "y_down_x_left_to_right", "one_adjacent_swap"};
+  return m >= 0 && m < 5 ? nm[m] : "?";
+}
+inline void relistRows(vh::Rng &g, Circuit &c, int mode) {
+  std::vector<Row> rows = c.rows_;
+  auto byYX = [](const Row &a, const Row &b) { return a.minY < b.minY || (a.minY == b.minY && a.minX < b.minX); };
+  if (mode == 0) std::reverse(rows.begin(), rows.end());
+  else if (mode == 1) { for (size_t i = rows.size(); i > 1; --i) std::swap(rows[i - 1], rows[g.range(0, i - 1)]); }
+  else if (mode == 2) std::stable_sort(rows.begin(), rows.end(), [](const Row &a, const Row &b) { return a.minY < b.minY || (a.minY == b.minY && a.minX > b.minX); });
+  else if (mode == 3) std::stable_sort(rows.begin(), rows.end(), [](const Row &a, const Row &b) { return a.minY > b.minY || (a.minY == b.minY && a.minX < b.minX); });
+  else if (rows.size() >= 2) {
+    std::stable_sort(rows.begin(), rows.end(), byYX);
+    size_t i = g.range(0, (long long)rows.size() - 2);
+    // prefer a pair of one y (the exchange a y-only comparison does not see)
+    std::vector<size_t> sameY;
+    for (size_t k = 0; k + 1 < rows.size(); ++k) if (rows[k].minY == rows[k + 1].minY) sameY.push_back(k);
+    if (!sameY.empty() && g.chance(2, 3)) i = g.pick(sameY);
+    std::swap(rows[i], rows[i + 1]);
+  }
+  c.setRows(rows);
+}
+
+// Cuts rows into two or three segments (possibly with a gap) whose orientations are drawn independently, so that the
+// segments of one y often prescribe different orientations (the generators give a second segment the same orientation
+// three times in four, and split one row in six).  `unit` is the coordinate scale of the circuit.
+inline void resegmentRows(vh::Rng &g, Circuit &c, long long unit, int num = 1, int den = 2) {
+  static const std::vector<CellOrientation> rowOr = {CellOrientation::N, CellOrientation::S, CellOrientation::FN, CellOrientation::FS};
+  std::vector<Row> out;
+  for (const Row &r : c.rows_) {
+    long long w = r.width() / unit;
+    if (w < 6 || !g.chance(num, den)) { out.push_back(r); continue; }
+    int pieces = (w >= 12 && g.chance(1, 3)) ? 3 : 2;
+    long long a = r.minX;
+    for (int k = 0; k < pieces; ++k) {
+      long long left = (r.maxX - a) / unit;
+      long long b = r.maxX;
+      if (k + 1 < pieces) {
+        if (left < 4) { out.emplace_back((int)a, r.maxX, r.minY, r.maxY, g.pick(rowOr)); a = r.maxX; break; }
+        b = a + unit * g.range(2, left - 2);
+      }
+      out.emplace_back((int)a, (int)b, r.minY, r.maxY, k == 0 ? r.orientation : g.pick(rowOr));
+      a = b + (k + 1 < pieces && g.chance(1, 3) ? unit * g.range(1, 2) : 0);
+      if (a >= r.maxX) break;
+    }
+  }
+  c.setRows(out);
 }
 
 // ---- facts about a circuit used by the oracles (independent of the library's row code) ----
